@@ -4,6 +4,14 @@ import json, os
 V = os.path.dirname(os.path.dirname(os.path.abspath(__file__)))
 
 CHECKS = {
+ "C11": dict(
+    technique="runtime oracle: independent all-shortest-chains evaluator over the declared rules vs real conversions under context stacks; replay under several hash seeds",
+    text="Bundled contexts: every ordered pair of rule endpoints with random units of those dimensions, parameters and every activation form is converted by the real registry "
+         "and compared (exact in the Fraction registry) with the value of some shortest rule chain computed by an independent reader/evaluator of the @context blocks. Generated "
+         "registries with 2-4 generated contexts (monomial equations, parameters, colliding rules, parallel chains, redefinitions) and stacks of 1-4 contexts through six activation "
+         "forms; the same case streams are replayed under 4 PYTHONHASHSEEDs because tie-breaking among equal-length chains follows set order.",
+    note="any shortest chain accepted; with 3+ nested levels every enclosing context is accepted as parameter donor (pint takes the oldest; observed, not alarmed)",
+    ref="4/C11"),
  "C10": dict(
     technique="runtime differential: independent reader vs loaded bundled registry; truth-by-construction + observational equivalence of loading paths on generated files; ill-formed corpus must raise",
     text="Every unit, spelling, symbol, prefix, dimension, converter parameter, group, system, context and default of the bundled files is compared with what an independent "
